@@ -573,12 +573,16 @@ def r15(facts, res):
     bad = []
     for bb, t in others:
         bad.append('line %s: the look-ahead set being collected is overwritten by `%s`: what the symbols before contributed is lost' % (t.get('line'), (t.get('callee') or {}).get('name', '?')))
-    # the loop that walks the symbols after the dot: the smallest loop that contains a growing write
-    gl = [min((x for x in loops if g in loops[x]), key=lambda x: len(loops[x])) for g, _gt in grows if any(g in loops[x] for x in loops)]
-    sym_loop = min(gl, key=lambda x: len(loops[x])) if gl else None
-    for bb, t in resets:
-        if sym_loop is not None and bb in loops[sym_loop]:
-            bad.append('line %s: the look-ahead set is reset inside the loop that collects it' % t.get('line'))
+    # after something was collected, no reset may come before the set is used (or the next item is taken up)
+    use_blocks = {bb for bb, _t in adds}
+    for rb, rt in resets:
+        both = [h for h in loops if rb in loops[h] and any(u in loops[h] for u in use_blocks)]
+        h_item = min(both, key=lambda x: len(loops[x])) if both else None
+        avoid = set(use_blocks) | ({h_item} if h_item is not None else set())
+        for g, _gt in grows:
+            if rb in b.reachable(starts=b.succs(g), avoid=avoid):
+                bad.append('line %s: the look-ahead set is reset after something was collected into it and before it is used' % rt.get('line'))
+                break
     if not grows or not resets:
         return res.lost(R, 'the scratch look-ahead set of close is never reset or never grown (resets %d, grows %d)' % (len(resets), len(grows)))
     if bad:
